@@ -154,3 +154,343 @@ def decode_gridded(buf):
             'delx': delx, 'dely': dely, 'nx': nx, 'ny': ny, 'nz': nz,
             'iproj': iproj, 'istag': istag, 'tlat1': tlat1, 'tlat2': tlat2,
             'times': times, 'data': data}
+
+
+# ---------------------------------------------------------------------------
+# Lateral boundary (BOUNDARY)
+#   rec1-4 as gridded (name BOUNDARY)
+#   per edge W,E,S,N: ione iedge ncell ((iloc, idum, idum, idum), n=1..ncell)
+#   per time: ibdate btime iedate etime
+#     per species, per edge: ione mspec(10a4) iedge ((bc(k,i) k=1..nz) i=1..ncell)
+# ---------------------------------------------------------------------------
+EDGES = ['WEST', 'EAST', 'SOUTH', 'NORTH']
+
+
+def boundary_from_spec(spec):
+    nx, ny, nz, nt = spec['nx'], spec['ny'], spec['nz'], spec['nt']
+    sp = list(spec['species'])
+    g = gridded_from_spec(dict(spec, name='BOUNDARY'))
+    del g['data']
+    data = {}
+    base = 1.0
+    for e in EDGES:
+        nc = ny if e in ('WEST', 'EAST') else nx
+        a = np.zeros((nt, len(sp), nc, nz), dtype='>f4')
+        a[...] = (base + 0.25 * np.arange(a.size, dtype='f8')).reshape(a.shape)
+        base += a.size * 0.25 + 100.0
+        data[e] = a
+    g['edges'] = data
+    g['iloc'] = {e: [2] * (ny if e in ('WEST', 'EAST') else nx) for e in EDGES}
+    for e in EDGES:
+        g['iloc'][e][0] = 0
+        g['iloc'][e][-1] = 0
+    return g
+
+
+def encode_boundary(g):
+    sp = g['species']
+    nsp = len(sp)
+    nx, ny, nz = g['nx'], g['ny'], g['nz']
+    t0 = g['times'][0]
+    t1 = g['times'][-1]
+    out = []
+    out.append(pack_record(
+        str4('BOUNDARY', 10) + str4(g['note'], 60) +
+        struct.pack('>iiifif', g['itzon'], nsp, yyjjj(t0[0]), t0[1],
+                    yyjjj(t1[2]), t1[3])))
+    out.append(pack_record(struct.pack(
+        '>ffiffffiiiiifff', g['plon'], g['plat'], g['iutm'], g['xorg'],
+        g['yorg'], g['delx'], g['dely'], nx, ny, nz, g['iproj'], g['istag'],
+        g['tlat1'], g['tlat2'], 0.0)))
+    out.append(pack_record(struct.pack('>iiii', 1, 1, nx, ny)))
+    out.append(pack_record(b''.join(str4(s, 10) for s in sp)))
+    for ei, e in enumerate(EDGES):
+        nc = ny if e in ('WEST', 'EAST') else nx
+        body = struct.pack('>iii', 1, ei + 1, nc)
+        for n in range(nc):
+            body += struct.pack('>iiii', g['iloc'][e][n], 0, 0, 0)
+        out.append(pack_record(body))
+    off = sum(len(x) for x in out)
+    header_end = off
+    ends = []
+    for ti, (bd, bt, ed, et) in enumerate(g['times']):
+        r = pack_record(struct.pack('>ifif', yyjjj(bd), bt, yyjjj(ed), et))
+        out.append(r)
+        off += len(r)
+        for si, s in enumerate(sp):
+            for ei, e in enumerate(EDGES):
+                a = np.asarray(g['edges'][e][ti, si], dtype='>f4')
+                r = pack_record(struct.pack('>i', 1) + str4(s, 10) +
+                                struct.pack('>i', ei + 1) + a.tobytes())
+                out.append(r)
+                off += len(r)
+        ends.append(off)
+    return b''.join(out), {'header_end': header_end, 'step_ends': ends}
+
+
+def decode_boundary(buf):
+    recs = walk(buf)
+    p = recs[0][1]
+    name = unstr4(p[:40]).strip()
+    note = unstr4(p[40:280])
+    itzon, nsp, ibd, bt, ied, et = struct.unpack('>iiifif', p[280:])
+    (plon, plat, iutm, xorg, yorg, delx, dely, nx, ny, nz, iproj, istag,
+     tlat1, tlat2, rdum) = struct.unpack('>ffiffffiiiiifff', recs[1][1])
+    p = recs[3][1]
+    if len(p) != 40 * nsp:
+        raise RecordError('species record size')
+    sp = [unstr4(p[40 * i:40 * i + 40]).strip() for i in range(nsp)]
+    iloc = {}
+    for ei, e in enumerate(EDGES):
+        p = recs[4 + ei][1]
+        nc = ny if e in ('WEST', 'EAST') else nx
+        if len(p) != 12 + 16 * nc:
+            raise RecordError('edge definition record size %d for %s' % (len(p), e))
+        one, iedge, ncell = struct.unpack('>iii', p[:12])
+        if iedge != ei + 1 or ncell != nc:
+            raise RecordError('edge definition %s says iedge=%d ncell=%d' % (e, iedge, ncell))
+        iloc[e] = [struct.unpack_from('>i', p, 12 + 16 * n)[0] for n in range(nc)]
+    body = recs[8:]
+    per = 1 + nsp * 4
+    if len(body) % per:
+        raise RecordError('%d data records is not a multiple of %d' % (len(body), per))
+    nt = len(body) // per
+    nzz = max(nz, 1)
+    edges = {e: np.zeros((nt, nsp, ny if e in ('WEST', 'EAST') else nx, nzz), dtype='>f4')
+             for e in EDGES}
+    times = []
+    for t in range(nt):
+        p = body[t * per][1]
+        if len(p) != 16:
+            raise RecordError('time record size')
+        times.append(struct.unpack('>ifif', p))
+        for si in range(nsp):
+            for ei, e in enumerate(EDGES):
+                p = body[t * per + 1 + si * 4 + ei][1]
+                nc = ny if e in ('WEST', 'EAST') else nx
+                if len(p) != 48 + 4 * nc * nzz:
+                    raise RecordError('boundary data record size %d' % len(p))
+                if unstr4(p[4:44]).strip() != sp[si]:
+                    raise RecordError('species tag mismatch')
+                if struct.unpack('>i', p[44:48])[0] != ei + 1:
+                    raise RecordError('edge tag mismatch')
+                edges[e][t, si] = np.frombuffer(p[48:], dtype='>f4').reshape(nc, nzz)
+    return {'name': name, 'note': note, 'itzon': itzon, 'species': sp,
+            'hdr_times': (ibd, bt, ied, et), 'plon': plon, 'plat': plat,
+            'iutm': iutm, 'xorg': xorg, 'yorg': yorg, 'delx': delx,
+            'dely': dely, 'nx': nx, 'ny': ny, 'nz': nz, 'iproj': iproj,
+            'istag': istag, 'tlat1': tlat1, 'tlat2': tlat2, 'times': times,
+            'edges': edges, 'iloc': iloc}
+
+
+# ---------------------------------------------------------------------------
+# Meteorological formats: every data record is  hour idate ((x(i,j)))
+#   one3d (humidity, vertical diffusivity): per time, per layer: one record
+#   temperature: per time: surface record, then one record per layer
+#   height/pressure: per time, per layer: height record, pressure record
+#   wind: per time: (hour idate lstagger); per layer: U record, V record
+#         (no time tag in U/V records); then a one-word dummy record
+# ---------------------------------------------------------------------------
+def met_times(spec):
+    out = []
+    d, h = spec['sdate'], float(spec['stime'])
+    for t in range(spec['nt']):
+        out.append((d, h))
+        d, h = add_hours(d, h, 1.0)
+    return out
+
+
+def met_from_spec(spec):
+    """fields[name] -> (nt, nz, ny, nx) or (nt, ny, nx) unique non-zero values"""
+    nx, ny, nz, nt = spec['nx'], spec['ny'], spec['nz'], spec['nt']
+    kind = spec['kind']
+    names = {'one3d': ['X'], 'humidity': ['X'], 'vertical_diffusivity': ['X'],
+             'temperature': ['SURF', 'AIR'], 'height_pressure': ['HGHT', 'PRES'],
+             'wind': ['U', 'V']}[kind]
+    fields = {}
+    base = 1.0
+    for n in names:
+        shape = (nt, ny, nx) if n == 'SURF' else (nt, nz, ny, nx)
+        a = np.zeros(shape, dtype='>f4')
+        a[...] = (base + 0.25 * np.arange(a.size, dtype='f8')).reshape(shape)
+        base += 0.25 * a.size + 500.0
+        fields[n] = a
+    return {'kind': kind, 'nx': nx, 'ny': ny, 'nz': nz, 'times': met_times(spec),
+            'fields': fields, 'lstagger': spec.get('lstagger', 0)}
+
+
+def _tagged(h, d, arr):
+    return pack_record(struct.pack('>fi', h, yyjjj(d)) +
+                       np.asarray(arr, dtype='>f4').tobytes())
+
+
+def encode_met(m):
+    kind = m['kind']
+    out = []
+    off = 0
+    ends = []
+    f = m['fields']
+    for ti, (d, h) in enumerate(m['times']):
+        recs = []
+        if kind in ('one3d', 'humidity', 'vertical_diffusivity'):
+            for k in range(m['nz']):
+                recs.append(_tagged(h, d, f['X'][ti, k]))
+        elif kind == 'temperature':
+            recs.append(_tagged(h, d, f['SURF'][ti]))
+            for k in range(m['nz']):
+                recs.append(_tagged(h, d, f['AIR'][ti, k]))
+        elif kind == 'height_pressure':
+            for k in range(m['nz']):
+                recs.append(_tagged(h, d, f['HGHT'][ti, k]))
+                recs.append(_tagged(h, d, f['PRES'][ti, k]))
+        elif kind == 'wind':
+            recs.append(pack_record(struct.pack('>fii', h, yyjjj(d), m['lstagger'])))
+            for k in range(m['nz']):
+                recs.append(pack_record(np.asarray(f['U'][ti, k], dtype='>f4').tobytes()))
+                recs.append(pack_record(np.asarray(f['V'][ti, k], dtype='>f4').tobytes()))
+            recs.append(pack_record(struct.pack('>i', 0)))
+        else:
+            raise ValueError(kind)
+        for r in recs:
+            out.append(r)
+            off += len(r)
+        ends.append(off)
+    return b''.join(out), {'header_end': 0, 'step_ends': ends}
+
+
+def decode_met(buf, kind, nx, ny):
+    recs = walk(buf)
+    ncell = nx * ny
+    times = []
+    fields = {}
+
+    def tagged(p):
+        if len(p) != 8 + 4 * ncell:
+            raise RecordError('record of %d bytes where %d expected' % (len(p), 8 + 4 * ncell))
+        h, d = struct.unpack('>fi', p[:8])
+        return (d, h), np.frombuffer(p[8:], dtype='>f4').reshape(ny, nx)
+    if kind == 'wind':
+        # find layer count from the first block
+        i = 1
+        while i < len(recs) and len(recs[i][1]) == 4 * ncell:
+            i += 1
+        nz = (i - 1) // 2
+        per = 2 + 2 * nz
+        if nz == 0 or len(recs) % per:
+            raise RecordError('wind record structure')
+        nt = len(recs) // per
+        U = np.zeros((nt, nz, ny, nx), dtype='>f4')
+        V = np.zeros((nt, nz, ny, nx), dtype='>f4')
+        lst = None
+        for t in range(nt):
+            p = recs[t * per][1]
+            if len(p) == 12:
+                h, d, lst = struct.unpack('>fii', p)
+            elif len(p) == 8:
+                h, d = struct.unpack('>fi', p)
+            else:
+                raise RecordError('wind time record size %d' % len(p))
+            times.append((d, h))
+            for k in range(nz):
+                for j, A in enumerate((U, V)):
+                    p = recs[t * per + 1 + 2 * k + j][1]
+                    if len(p) != 4 * ncell:
+                        raise RecordError('wind data record size')
+                    A[t, k] = np.frombuffer(p, dtype='>f4').reshape(ny, nx)
+        return {'kind': kind, 'nx': nx, 'ny': ny, 'nz': nz, 'times': times,
+                'fields': {'U': U, 'V': V}, 'lstagger': lst}
+    tags = [tagged(p)[0] for o, p in recs]
+    if not tags:
+        raise RecordError('empty file')
+    # records of one time step share their tag
+    n0 = 1
+    while n0 < len(tags) and tags[n0] == tags[0]:
+        n0 += 1
+    per = n0
+    if len(recs) % per:
+        raise RecordError('%d records is not a multiple of %d' % (len(recs), per))
+    nt = len(recs) // per
+    if kind in ('one3d', 'humidity', 'vertical_diffusivity'):
+        nz = per
+        X = np.zeros((nt, nz, ny, nx), dtype='>f4')
+        for t in range(nt):
+            for k in range(nz):
+                tg, a = tagged(recs[t * per + k][1])
+                if tg != tags[t * per]:
+                    raise RecordError('time tag changes inside a step')
+                X[t, k] = a
+            times.append(tags[t * per])
+        fields = {'X': X}
+    elif kind == 'temperature':
+        nz = per - 1
+        S = np.zeros((nt, ny, nx), dtype='>f4')
+        A = np.zeros((nt, nz, ny, nx), dtype='>f4')
+        for t in range(nt):
+            S[t] = tagged(recs[t * per][1])[1]
+            for k in range(nz):
+                tg, a = tagged(recs[t * per + 1 + k][1])
+                if tg != tags[t * per]:
+                    raise RecordError('time tag changes inside a step')
+                A[t, k] = a
+            times.append(tags[t * per])
+        fields = {'SURF': S, 'AIR': A}
+    elif kind == 'height_pressure':
+        if per % 2:
+            raise RecordError('odd record count per step')
+        nz = per // 2
+        H = np.zeros((nt, nz, ny, nx), dtype='>f4')
+        P = np.zeros((nt, nz, ny, nx), dtype='>f4')
+        for t in range(nt):
+            for k in range(nz):
+                H[t, k] = tagged(recs[t * per + 2 * k][1])[1]
+                P[t, k] = tagged(recs[t * per + 2 * k + 1][1])[1]
+            times.append(tags[t * per])
+        fields = {'HGHT': H, 'PRES': P}
+    else:
+        raise ValueError(kind)
+    return {'kind': kind, 'nx': nx, 'ny': ny, 'nz': nz, 'times': times,
+            'fields': fields, 'lstagger': 0}
+
+
+def yyyyjjj(yyjjj_, pivot=70):
+    """two-digit-year julian date -> four digits (1970-2069 window)"""
+    yy, jjj = divmod(int(yyjjj_), 1000)
+    if yy >= 1000:
+        return int(yyjjj_)
+    return ((1900 if yy >= pivot else 2000) + yy) * 1000 + jjj
+
+
+def hhmmss(hour):
+    """CAMx float hour (HH or HHMM/100?) -> HHMMSS.  CAMx meteorology uses
+    hour as HHMM (e.g. 1200.) in v4+ and HH in older files; files here use
+    whole hours 0..23 stored as HH."""
+    h = int(round(float(hour)))
+    return h * 10000
+
+
+def selftest():
+    """decode -> re-encode every sample file of the repo byte for byte."""
+    base = '/repo/src/PseudoNetCDF/testcase/camxfiles/'
+    res = {}
+    b = open(base + 'uamiv/test.uamiv', 'rb').read()
+    g = decode_gridded(b)
+    g['times'] = [(yyyyjjj(t[0]), t[1], yyyyjjj(t[2]), t[3]) for t in g['times']]
+    res['uamiv'] = encode_gridded(g)[0] == b
+    b = open(base + 'lateral_boundary/test.lateral_boundary', 'rb').read()
+    g = decode_boundary(b)
+    g['times'] = [(yyyyjjj(t[0]), t[1], yyyyjjj(t[2]), t[3]) for t in g['times']]
+    res['lateral_boundary'] = encode_boundary(g)[0] == b
+    for kind, fn in [('humidity', 'humidity/test.humidity'),
+                     ('vertical_diffusivity', 'vertical_diffusivity/test.vertical_diffusivity'),
+                     ('temperature', 'temperature/test.temperature'),
+                     ('height_pressure', 'height_pressure/test.height_pressure'),
+                     ('wind', 'wind/test.wind')]:
+        b = open(base + fn, 'rb').read()
+        m = decode_met(b, kind, 5, 4)
+        m['times'] = [(yyyyjjj(d), h) for d, h in m['times']]
+        res[kind] = encode_met(m)[0] == b
+    return res
+
+
+if __name__ == '__main__':
+    print(selftest())
